@@ -93,6 +93,9 @@ class StmtMixin:
 
     def st_Return(self, s):
         v = self.ev(s.value) if s.value is not None else NONE
+        if self.cfg.all_branches:
+            self.frames[-1].retvals = getattr(self.frames[-1], "retvals", []) + [v]
+            return
         fr = self.frames[-1]
         dep = set()
         for c, _ in fr.ctrl:
@@ -101,6 +104,10 @@ class StmtMixin:
 
     def st_Raise(self, s):
         fr = self.frames[-1]
+        if self.cfg.all_branches:
+            if s.exc is not None:
+                self.ev(s.exc)
+            return
         if s.exc is None:
             # re-raise current exception
             for f in reversed(self.frames):
@@ -123,6 +130,17 @@ class StmtMixin:
 
     def st_If(self, s):
         c = self.ev(s.test)
+        if self.cfg.all_branches:
+            fr = self.frames[-1]
+            for blk in (s.body, s.orelse):
+                fr.ctrl.append((c, blk is s.body))
+                try:
+                    self.exec_block(blk)
+                except (_Break, _Continue):
+                    pass
+                finally:
+                    fr.ctrl.pop()
+            return
         tr = self.truth(c)
         fr = self.frames[-1]
         fr.ctrl.append((c, tr))
@@ -259,6 +277,14 @@ class StmtMixin:
             caught_names.append(self.handler_names(h))
         flat = set(x for names in caught_names for x in names)
         depth = len(self.frames)
+        if self.cfg.all_branches:
+            self.exec_block(s.body)
+            for h in s.handlers:
+                info = ExcInfo("Exception", self.here(h), None, frozenset(), False)
+                self.run_handler(fr, h, info)
+            self.exec_block(s.orelse)
+            self.exec_block(s.finalbody)
+            return
         try:
             try:
                 fr.try_catch.append(flat)
